@@ -339,7 +339,7 @@ def sevName : Evo.Sev → String
   | .ok => "ok" | .warn => "warn" | .err => "err"
 
 def backendOfString : String → Except String Plan.Backend
-  | "py" => pure .pyBinary | "matlab" => pure .matlabBinary | "pyndjson" => pure .pyNdjson
+  | "py" => pure .pyBinary | "matlab" => pure .matlabBinary | "pyndjson" => pure .pyNdjson | "cpp" => pure .cppBinary
   | s => throw s!"bad backend {s}"
 
 def handle (j : Json) : Except String Json := do
@@ -421,6 +421,11 @@ def handle (j : Json) : Except String Json := do
     match e.eval ρ with
     | none => pure (Json.mkObj ([("undefined", Json.bool true)] ++ extra))
     | some v => pure (Json.mkObj ([("value", ji v)] ++ extra))
+  | "lit_type" =>
+    let n ← (← j.getObjVal? "n").getInt?
+    match litType n with
+    | some t => pure (Json.mkObj [("signed", Json.bool t.signed), ("bits", jn t.bits), ("contains", Json.bool (t.rng.contains n))])
+    | none => pure (Json.mkObj [("rejected", Json.bool true)])
   | "paren" =>
     let tgt ← targetOfString (← (← j.getObjVal? "target").getStr?)
     let op ← binOpOfString (← (← j.getObjVal? "op").getStr?)
